@@ -14,6 +14,15 @@
 (*   model (a single cell changes / one allele is exchanged between the two   *)
 (*   parents / nothing changes) into a state of positive posterior; the row   *)
 (*   recorded is the current state, sorted, padding last.                     *)
+(* Lines of pedigrees in RowPedNames also carry what the sampler computed      *)
+(* with the likelihood cache it shares between all individuals and moves:      *)
+(*   allele.pr  - the probability vector the update drew from (round(10^6 p)), *)
+(*                kind "gibbs" / "mh"; allele.pr0 the same call without cache  *)
+(*   swap.ip, swap.iq, swap.acc - the exchanged positions and prob_accept      *)
+(*                (-1 = no proposal), swap.acc0 without cache                  *)
+(* and are validated against the kernel rows of the model in the CURRENT       *)
+(* joint state (GibbsRow / MHRow / SwapAccept of PedigreeSampler): the rows    *)
+(* depend on the joint state only, whatever was updated before.                *)
 EXTENDS PedigreeSampler, IOUtils
 
 Trace == JsonDeserialize(IOEnv.TRACE_FILE)
@@ -22,7 +31,7 @@ VARIABLES l, doneA, doneP, swapOn, bad
 tvars == <<pd, s, tab, l, doneA, doneP, swapOn, bad>>
 
 TraceTab(ped) == [trio |-> TrioTabFor(ped), allele |-> <<>>, bag |-> BagTabFor(ped),
-                  perms |-> PermsTabFor(ped), lw |-> <<>>]
+                  perms |-> PermsTabFor(ped), lw |-> LWTabFor(ped)]
 PedIndex(nm) == CHOOSE j \in 1..Len(Peds) : Peds[j].name = nm
 AllPositions(ped) == UNION {{<<i, k>> : k \in 1..ped.ploidy[i]} : i \in 1..ped.n}
 MaxPloidy(ped) == CHOOSE m \in {ped.ploidy[i] : i \in 1..ped.n} : \A i \in 1..ped.n : ped.ploidy[i] <= m
@@ -33,22 +42,45 @@ WellTyped(ped, st) ==
   /\ \A i \in 1..ped.n : Len(st[i]) = ped.ploidy[i] /\ \A k \in 1..Len(st[i]) : st[i][k] \in 0..(ped.K - 1)
 
 (* verdict and effect of one line ------------------------------------------ *)
+HasField(e, f) == f \in DOMAIN e
+SameMicro(x, y) == Len(x) = Len(y) /\ \A j \in 1..Len(x) : x[j] - y[j] <= 1 /\ y[j] - x[j] <= 1
+RowVerdict(ped, e) ==       \* the vector the update drew from
+  IF ~HasField(e, "pr") THEN "ok"
+  ELSE IF ped.name \notin RowPedNames THEN "RowPedigreeSupported"
+  ELSE IF ~(Len(e.pr) = ped.K /\ e.kind \in {"gibbs", "mh"}) THEN "RowTyped"
+  ELSE LET row == IF e.kind = "gibbs" THEN GibbsRow(ped, s, e.i, e.k) ELSE MHRow(ped, s, e.i, e.k)
+       IN  IF \E b \in 0..(ped.K - 1) : ~NearMicro(e.pr[b + 1], row[b])
+           THEN (IF e.kind = "gibbs" THEN "GibbsRowIsFullConditional" ELSE "MHRowIsKernelRow")
+           ELSE IF HasField(e, "pr0") /\ ~SameMicro(e.pr, e.pr0) THEN "CacheTransparent"
+           ELSE "ok"
 AlleleVerdict(ped, e) ==
   IF ~(e.i \in 1..ped.n /\ e.k \in 1..ped.ploidy[e.i] /\ e.b \in 0..(ped.K - 1)) THEN "AlleleEventTyped"
   ELSE IF <<e.i, e.k>> \in doneA THEN "OncePerIteration"
   ELSE IF doneP # {} THEN "AllelesBeforeSwaps"
+  ELSE IF RowVerdict(ped, e) # "ok" THEN RowVerdict(ped, e)
   ELSE IF ~Positive(ped, SetCell(s, e.i, e.k, e.b)) THEN "MoveInSupport"
   ELSE "ok"
 
 SwapOutcomes(ped, p, q) ==      \* the states a pair step may end in
   {s} \cup {SwapTarget(s, p, q, ip, iq) : ip \in 1..ped.ploidy[p], iq \in 1..ped.ploidy[q]}
 AfterSwap(e) == IF e.p = e.q THEN [s EXCEPT ![e.p] = e.xp] ELSE [s EXCEPT ![e.p] = e.xp, ![e.q] = e.xq]
+AcceptVerdict(ped, e) ==    \* the acceptance probability of the proposed exchange
+  IF ~HasField(e, "acc") THEN "ok"
+  ELSE IF ped.name \notin RowPedNames THEN "RowPedigreeSupported"
+  ELSE IF ~(e.ip \in 1..ped.ploidy[e.p] /\ e.iq \in 1..ped.ploidy[e.q]) THEN "SwapEventTyped"
+  ELSE IF s[e.p][e.ip] = s[e.q][e.iq]
+       THEN (IF e.acc # -1 \/ AfterSwap(e) # s THEN "SwapNoProposalNoChange" ELSE "ok")
+  ELSE IF e.acc < 0 \/ ~NearMicro(e.acc, SwapAccept(ped, s, e.p, e.q, e.ip, e.iq)) THEN "SwapAcceptIsTargetRatio"
+  ELSE IF AfterSwap(e) \notin {s, SwapTarget(s, e.p, e.q, e.ip, e.iq)} THEN "SwapIsTheProposedExchange"
+  ELSE IF HasField(e, "acc0") /\ (e.acc - e.acc0 > 1 \/ e.acc0 - e.acc > 1) THEN "CacheTransparent"
+  ELSE "ok"
 SwapVerdict(ped, e) ==
   IF ~(e.p \in 1..ped.n /\ e.q \in 1..ped.n) THEN "SwapEventTyped"
   ELSE IF ~swapOn THEN "SwapDisabled"
   ELSE IF doneA # AllPositions(ped) THEN "SweepCompleteBeforeSwap"
   ELSE IF <<e.p, e.q>> \notin Pairs(ped) THEN "IsParentalPair"
   ELSE IF <<e.p, e.q>> \in doneP THEN "PairOnce"
+  ELSE IF AcceptVerdict(ped, e) # "ok" THEN AcceptVerdict(ped, e)
   ELSE IF AfterSwap(e) \notin SwapOutcomes(ped, e.p, e.q) THEN "SwapIsExchange"
   ELSE IF ~Positive(ped, AfterSwap(e)) THEN "MoveInSupport"
   ELSE "ok"
